@@ -443,3 +443,47 @@ M('c10-flag-scan-short-escape-keeps-flag', 'C10', None, U, SCAN, _FLAG_SCAN % ('
 M('c10-flag-scan-bad-digit-keeps-flag', 'C10', None, U, SCAN, _FLAG_SCAN % (_CLR, ''), also=('C15',))
 # the flag tested with the wrong polarity: accepted exactly when an escape was malformed
 M('c10-flag-scan-negated-test', 'C10', None, U, SCAN, (_FLAG_SCAN % (_CLR, _CLR)).replace("if already_escaped:", "if not already_escaped:"), also=('C15',))
+
+# ---------------------------------------------------------------- third preserving wave (k3-*): refactoring + break
+# k3-c08-1 shape: try / except KeyError written as `octet = _HEX_TO_BYTE.get(token[:2])` + a test for None
+# the None arm (key absent) forgets the '%'
+M('c10-get-none-arm-drops-percent', 'C10', 'R4', U, _TRY_BA,
+  "        octet = _HEX_TO_BYTE.get(token_partial)\n        if octet is None:\n            decoded_uri += token\n"
+  "        else:\n            decoded_uri += octet + token[2:]\n", also=('C08',))
+# the test inverted, arms left as they were: None + bytes (TypeError) for a malformed escape, well-formed ones stay literal
+M('c10-get-none-test-inverted', 'C10', 'R4', U, _TRY_INLINE,
+  "            octet = _HEX_TO_BYTE.get(token_partial)\n            if octet is not None:\n                reencoded_uri += b'%' + token\n"
+  "            else:\n                reencoded_uri += octet + token[2:]\n", also=('C08',))
+# guard-clause form without a literal arm: a malformed escape vanishes
+M('c10-get-none-arm-emits-nothing', 'C10', 'R4', U, _TRY_LIST,
+  "        octet = _HEX_TO_BYTE.get(token_partial)\n        if octet is None:\n            continue\n"
+  "        decoded.append(octet + token[2:])\n", also=('C08',))
+# the result used without any test: decode('%zz') raises TypeError
+M('c10-get-result-untested', 'C10', 'R4', U, _TRY_BA,
+  "        octet = _HEX_TO_BYTE.get(token_partial)\n        decoded_uri += octet + token[2:]\n", also=('C08',))
+# the key window widened while moving to .get()
+M('c10-get-key-three-characters', 'C10', 'R4', U, "            token_partial = token[:2]\n" + _TRY_INLINE,
+  "            octet = _HEX_TO_BYTE.get(token[:3])\n            if octet is None:\n                reencoded_uri += b'%' + token\n"
+  "            else:\n                reencoded_uri += octet + token[2:]\n", also=('C08',))
+
+# ---- pre-emptive hardening (shapes read since the third wave): refactoring + break
+# the b'%' literal hoisted into a module constant; the fall-back arm uses a look-alike constant
+M2('c10-hoisted-percent-fallback-is-escape', 'C10', 'R4', [
+    {'file': U, 'old': "_join_tokens = _join_tokens_list if PYPY else _join_tokens_bytearray\n",
+     'new': "_join_tokens = _join_tokens_list if PYPY else _join_tokens_bytearray\n_PERCENT = b'%'\n_LITERAL_PERCENT = b'%25'\n"},
+    {'file': U, 'old': "    tokens = reencoded_uri.split(b'%')\n", 'new': "    tokens = reencoded_uri.split(_PERCENT)\n"},
+    {'file': U, 'old': "                reencoded_uri += b'%' + token\n", 'new': "                reencoded_uri += _LITERAL_PERCENT + token\n"}], also=('C08',))
+# a local alias of the table in one joiner; the remainder starts one character late
+M('c10-table-alias-rest-from-3', 'C10', 'R4', U,
+  "    decoded_uri = bytearray(tokens[0])\n    for token in tokens[1:]:\n        token_partial = token[:2]\n" + _TRY_BA,
+  "    decoded_uri = bytearray(tokens[0])\n    hex_to_byte = _HEX_TO_BYTE\n    for token in tokens[1:]:\n        token_partial = token[:2]\n"
+  "        try:\n            decoded_uri += hex_to_byte[token_partial] + token[3:]\n        except KeyError:\n            decoded_uri += b'%' + token\n", also=('C08',))
+# a local alias of the bound .get; the None arm re-emits the key characters only
+M2('c10-get-alias-none-arm-partial', 'C10', 'R4', [
+    {'file': U, 'old': "    decoded = tokens[:1]\n", 'new': "    decoded = tokens[:1]\n    lookup = _HEX_TO_BYTE.get\n"},
+    {'file': U, 'old': "        token_partial = token[:2]\n" + _TRY_LIST,
+     'new': "        octet = lookup(token[:2])\n        if octet is None:\n            decoded.append(b'%' + token[:2])\n        else:\n            decoded.append(octet + token[2:])\n"}],
+   also=('C08',))
+# parse_host: "exactly one colon" written with count(); the test the wrong way round sends every other host to int()
+M('c10-host-count-test-inverted', 'C10', 'R6', U, "    pos = host.rfind(':')\n    if (pos == -1) or (pos != host.find(':')):\n",
+  "    if host.count(':') == 1:\n", also=('C09', 'C06'))
